@@ -9,7 +9,7 @@ from .guards import Ctx, A, Not, And, Or, atoms_of, ev, facts_from, show_f, lite
 from .summ import (Summarizer, State, Sym, ListV, DictV, BoolV, WILD, DONTCARE, vkey, show_value, to_num, Leaf)
 from .laws import all_atoms, assignments, select, subst_value, values_equal, show_alpha
 
-OPAQUE_TAGS = {"comp", "lambda", "ite", "fstr", "star"}
+OPAQUE_TAGS = {"comp", "lambda", "fstr", "star"}
 
 
 # ------------------------------------------------------------------------------------------------ roles
@@ -350,7 +350,17 @@ def c01_wiring(model, rep):
     # the accumulator must start at zero and be what is returned
     check_acc_init(model, rep, fn, loop, acc, rel)
     n_inst += 1
-    # ---- R4 forward / backward pass
+    n_inst += pass_wiring(model, rep, r, "R4")
+    # ---- R6 row assembly
+    rows_ok = row_assembly(model, rep, r, "R6", ["Vin (V)", "Vout (V)", "Iin (A)", "Iout (A)", "Parent", "Component", "Type"])
+    n_inst += 1
+    rep.floor("R4-R6", n_inst, 4)
+
+
+def pass_wiring(model, rep, r, rule):
+    """forward / backward pass: which law is evaluated on which operands"""
+    rel = model.rel("system")
+    n_inst = 0
     for role, specname, method in (("FWD", "fwd_prop__body", "_solv_outp_volt"), ("BACK", "back_prop__body", "_solv_inp_curr")):
         fn, loop, cl, env = body_leaves(model, r, r[role], lambda l: isinstance(l, ast.For) and iter_is_role(l, r["TOPO"]), role + " loop")
         ps = [a.arg for a in fn.args.args][1:]
@@ -366,22 +376,19 @@ def c01_wiring(model, rep):
         def sval(lf, method=method, role=role):
             d = dispatch_of(lf, method, role)
             return {"receiver": d[2], "arguments": d[3]}
-        rows, ok = compare_rows(cl, sl, cval, sval, rep, "R4", "system.System.%s" % r[role], "%s:%d" % (rel, loop.lineno), role + " pass wiring")
+        rows, ok = compare_rows(cl, sl, cval, sval, rep, rule, "system.System.%s" % r[role], "%s:%d" % (rel, loop.lineno), role + " pass wiring")
         # result stored at the receiver's own index
         for lf in cl:
             d = dispatch_of(lf, method, role)
             idxs = [e[1][2] for e in lf.events if e[0] == "store" and e[1][0] == "sub"]
             if not idxs or any(vkey(ix) != vkey(d[2]) for ix in idxs):
                 ok = False
-                rep.violation("R4", "system.System.%s" % r[role], "%s:%d" % (rel, loop.lineno),
+                rep.violation(rule, "system.System.%s" % r[role], "%s:%d" % (rel, loop.lineno),
                               "%s pass stores the result of node %s at index %s" % (role, show_value(d[2]), ", ".join(show_value(x) for x in idxs)),
                               "result index")
-        rep.instance("R4", "system.System.%s loop body" % r[role], "%s:%d" % (rel, loop.lineno), ok, "%d leaves, %d rows" % (len(cl), rows))
+        rep.instance(rule, "system.System.%s loop body" % r[role], "%s:%d" % (rel, loop.lineno), ok, "%d leaves, %d rows" % (len(cl), rows))
         n_inst += 1
-    # ---- R6 row assembly
-    rows_ok = row_assembly(model, rep, r, "R6", ["Vin (V)", "Vout (V)", "Iin (A)", "Iout (A)", "Parent", "Component", "Type"])
-    n_inst += 1
-    rep.floor("R4-R6", n_inst, 4)
+    return n_inst
 
 
 def acc_name(loop, env):
@@ -797,6 +804,7 @@ def c06_plumbing(model, rep):
     if not ok:
         rep.violation("R3", "system.System.%s" % init_def.name, "%s:%d" % (rel, init_def.lineno), "the phase lookup is not rebuilt before solving", "phase lookup refresh")
     rep.instance("R3", "system.System.%s rebuilds the phase lookup" % init_def.name, "%s:%d" % (rel, init_def.lineno), ok)
+    pass_wiring(model, rep, r, "R3")
     # ---- R4 phase independence
     carried, acc = loop_carried(ploop)
     ok = not carried
@@ -808,7 +816,7 @@ def c06_plumbing(model, rep):
     phase_list_rule(model, rep, r, an)
 
 
-def phase_list_rule(model, rep, r, an):
+def phase_list_rule(model, rep, r, an, labels=("R4", "R5")):
     rel = model.rel("system")
     fn, ploop = an["fn"], an["phase_loop"]
     pre = []
@@ -864,8 +872,8 @@ def phase_list_rule(model, rep, r, an):
         ok_raise = False
     where = "%s:%d" % (rel, fn.lineno)
     if not ok_list:
-        rep.violation("R4", "system.System.solve", where, "the phase list is not [phase] for a requested phase / all phases in declared order otherwise", "phase list")
+        rep.violation(labels[0], "system.System.solve", where, "the phase list is not [phase] for a requested phase / all phases in declared order otherwise", "phase list")
     if not ok_raise:
-        rep.violation("R5", "system.System.solve", where, "an unknown phase is not rejected with ValueError before the phase loop", "unknown phase")
-    rep.instance("R4", "system.System.solve phase list", where, ok_list, "%d prologue paths" % nrows)
-    rep.instance("R5", "system.System.solve unknown phase -> ValueError", where, ok_raise)
+        rep.violation(labels[1], "system.System.solve", where, "an unknown phase is not rejected with ValueError before the phase loop", "unknown phase")
+    rep.instance(labels[0], "system.System.solve phase list", where, ok_list, "%d prologue paths" % nrows)
+    rep.instance(labels[1], "system.System.solve unknown phase -> ValueError", where, ok_raise)
